@@ -901,7 +901,7 @@ fn parse_expr(
                         Ok((Expr::UnaryNot(Box::new(expr)), pair))
                     }
                     Rule::optional_unwrap => {
-                        let (line, col) = pair.as_ref().unwrap().line_col();
+                        let (line, col) = op.line_col();
                         Ok((Expr::UnaryUnwrap {
                             value: Box::new(expr),
                             span: Box::new(format!("{}:{line}:{col}", user_data.get_source_file_name())),
